@@ -6,11 +6,14 @@ from harness import dtwgen
 COQ_FILES = ["theories/Matrix.v", "theories/MatrixProofs.v", "theories/CMatrix.v", "props/C06.v"]
 THEOREMS = [("DVProps.C06", "C06_length_is_number_of_pairs"), ("DVProps.C06", "C06_compact_is_map_over_pairs"),
             ("DVProps.C06", "C06_condensed_index"), ("DVProps.C06", "C06_c_routines_enumerate_the_pairs"),
-            ("DVProps.C06", "C06_c_length_is_number_of_pairs"), ("DVProps.C06", "C06_c_loops_call_row_then_column")]
+            ("DVProps.C06", "C06_c_length_is_number_of_pairs"), ("DVProps.C06", "C06_c_loops_call_row_then_column"),
+            ("DVProps.C06", "C06_early_empty_result_only_for_empty_selections")]
 TRUSTED_BASE = [
     "Coq 8.16.1 kernel (no native_compute)",
     "tools/translate_py.py: _distance_matrix_length, _complete_block, distance_matrix_python, distance_array_index are "
-    "regenerated WHOLE from dtw.py into Gen_matrix.v; the theorems are about those generated terms",
+    "regenerated WHOLE from dtw.py into Gen_matrix.v; the theorems are about those generated terms; of dtw.distance_matrix "
+    "itself the pre-checks under `if block is not None:` and the set of its return statements are pinned and the condition "
+    "of its only early `return []` is regenerated (py_dm_early_empty)",
     "tools/translate_c.py: loop bounds, column-start rule, 0->n corrections of the four serial C routines and the "
     "per-row contribution of dtw_distances_length regenerated into Gen_cmatrix.v; CMatrix.v proves they enumerate "
     "`pairs` in order / count them (consecutive output positions checked by the translator)",
